@@ -27,6 +27,7 @@ func init() {
 			"Round 6: R10 (= X8) chunk directories are named alike by doChunks and updateId; R7b an orphaned local node found Running at re-attach is reset on every path. " +
 			"Round 7: R11 extracted metadata files are renamed into place when complete; R3c (= J8) the uniquifier generator orders attempts. " +
 			"R12 in RemoteJobManager.sendJob the queue sentinel is removed only after the submit command has run (must-pass-through). " +
+			"R6 (round 9) also covers returns of a helper's verdict that can be nil. " +
 			"NOT decided: equality of final outputs with an uninterrupted run, behaviour at each individual crash prefix, PID reuse.",
 		Assumptions: commonAssumptions,
 	}
@@ -786,7 +787,22 @@ func ruleR6(c *an.Ctx) {
 	w := an.Query{Fn: reset,
 		Target: func(x ssa.Instruction) bool {
 			r, ok := x.(*ssa.Return)
-			return ok && len(r.Results) == 1 && an.IsNil(an.RetVal(r, 0))
+			if !ok || len(r.Results) != 1 {
+				return false
+			}
+			// a nil error, or the verdict of a helper of the package that can be nil
+			// (`return self.resetPartial()`, round 9)
+			if an.IsNil(an.RetVal(r, 0)) {
+				return true
+			}
+			v := an.RetVal(r, 0)
+			if !mayBeNilResultOfHelper(v) {
+				return false
+			}
+			nonNil, _ := an.GuardedBy(r, func(rel an.Rel) bool {
+				return rel.Op == token.NEQ && (rel.X == v && an.IsNil(rel.Y) || rel.Y == v && an.IsNil(rel.X))
+			})
+			return !nonNil
 		},
 		Barrier: func(x ssa.Instruction) bool { return md.Instr(x, 0) }}.Find()
 	c.Check("R6", "state-fresh-after-reset@(*Node).reset", reset.Pos(), w == nil,
@@ -1082,4 +1098,40 @@ func ruleR3b(c *an.Ctx) {
 	}
 	c.Check("R3", "full-reset-renews-uniquifiers@(*Fork).reset", fr.Pos(), n > 0,
 		"Fork.reset, which re-creates the split and join metadata of a stage under full stage reset, never assigns Metadata.uniquifier: the new attempt keeps the directory and journal name of the failed one, and a late notification from the stale attempt (split_complete, join_complete) is taken for the new attempt's")
+}
+
+// mayBeNilResultOfHelper: v is the (last) result of a call of a function of the program one of
+// whose returns hands back a nil constant in that position.
+func mayBeNilResultOfHelper(v ssa.Value) bool {
+	var call *ssa.Call
+	idx := -1
+	switch x := v.(type) {
+	case *ssa.Call:
+		call = x
+	case *ssa.Extract:
+		call, _ = x.Tuple.(*ssa.Call)
+		idx = x.Index
+	}
+	if call == nil {
+		return false
+	}
+	h := call.Call.StaticCallee()
+	if h == nil || h.Blocks == nil {
+		return false
+	}
+	found := false
+	an.Instrs(h, func(in ssa.Instruction) {
+		r, ok := in.(*ssa.Return)
+		if !ok || len(r.Results) == 0 {
+			return
+		}
+		i := idx
+		if i < 0 {
+			i = len(r.Results) - 1
+		}
+		if i < len(r.Results) && an.IsNil(an.RetVal(r, i)) {
+			found = true
+		}
+	})
+	return found
 }
